@@ -9,6 +9,7 @@ with g negative must be sat (reachability / vacuity guard).
 import json
 import os
 import time
+from fractions import Fraction
 
 import z3
 
@@ -109,6 +110,12 @@ def capacity_gate(lf, year, cg, res):
         extra = [rm.solved, tm.eq(cnt, tm.I(1))]
         # the other listing stays empty, so that the form is filed because of this one
         extra += [tm.eq(tm.var('i:' + o, 'I'), tm.I(0)) for o in cg['counts'] if o != cname]
+        # ... and the listing total sits just above the filing threshold, so that one row can be split off
+        tl = cg['listing'][cname]['total_line']
+        if tl in rm.lvar:
+            thr = cg['threshold']
+            extra += [rm.valued[tl], tm.lt(tm.R(thr), rm.lvar[tl][1]), tm.le(rm.lvar[tl][1], tm.R(thr + 1)),
+                      tm.le(tm.R(2), rm.float_input_term('%s:0.%s' % (copy_form, cg['listing'][cname]['amount_input'])))]
         if part in rm.dem:
             extra.append(rm.dem[part])
         r, base, _m = lf.query(extra)
@@ -117,21 +124,28 @@ def capacity_gate(lf, year, cg, res):
             continue
         I = cat.hab_inputs
         n = max(witness['count'], rows + 1)
-        for place in ('last', 'first'):
-            inputs = dict((k, v) for k, v in base.items() if not k.startswith(copy_form + ':'))
-            inputs[cname] = str(n)
-            big = n - 1 if place == 'last' else 0
-            for k in range(n):
-                for key, val in base.items():
-                    if not key.startswith(copy_form + ':0.'):
-                        continue
-                    tail = key.split('.', 1)[1]
-                    if k != big and type(cat.input(key)) is I.FloatInput:
+        amt = cg['listing'][cname]['amount_input']
+        a0 = Fraction(base['%s:0.%s' % (copy_form, amt)])
+        cut = Fraction(101, 100)
+        # rows 0..rows-1 carry the base copy less $1.01 (their total stays at or under the
+        # threshold), the copy that does not fit carries the $1.01: totals over all copies
+        # are those of the solved one-copy witness
+        inputs = dict((k, v) for k, v in base.items() if not k.startswith(copy_form + ':'))
+        inputs[cname] = str(n)
+        for k in range(n):
+            for key, val in base.items():
+                if not key.startswith(copy_form + ':0.'):
+                    continue
+                tail = key.split('.', 1)[1]
+                if type(cat.input(key)) is I.FloatInput:
+                    if tail == amt:
+                        val = retmodel.frac_to_text(a0 - cut) if k == 0 else (retmodel.frac_to_text(cut) if k == n - 1 else '0')
+                    elif k != 0:
                         val = '0'
-                    inputs['%s:%d.%s' % (copy_form, k, tail)] = val
-            res['viol'].append({'key': 'ty%d:capacity:%s:%s' % (year, cg['name'], cname), 'alt': place,
-                                'what': '%d copies of %s (Schedule B has %d rows) still yield a solved return' % (n, copy_form, rows),
-                                'replay': {'kind': 'solve', 'year': year, 'forms': ['1040'], 'inputs': inputs, 'expect': {'kind': 'solved'}}})
+                inputs['%s:%d.%s' % (copy_form, k, tail)] = val
+        res['viol'].append({'key': 'ty%d:capacity:%s:%s' % (year, cg['name'], cname),
+                            'what': '%d copies of %s (Schedule B has %d rows) still yield a solved return' % (n, copy_form, rows),
+                            'replay': {'kind': 'solve', 'year': year, 'forms': ['1040'], 'inputs': inputs, 'expect': {'kind': 'solved'}}})
 
 
 def task(arg):
